@@ -164,9 +164,9 @@ def processFiles (cfg : Cfg) (root : Str) (anc : List (Str × Str)) : St → Lis
     (out ++ r.1, r.2)
 
 def conjunct (cfg : Cfg) (root : Str) (st : St) (name : Str) (c : String) : Bool :=
-  if c = "not_in_except_paths" then !(st.exceptStr.contains (osJoin root name))
-  else if c = "not_in_relative_expanded" then !((expandRel root st.rel).contains (osJoin root name))
-  else if c = "base_name_not_ignored" then !(cfg.ignoreFolders.contains name)
+  if c = "not_in_except_paths" then !(decide (osJoin root name ∈ st.exceptStr))
+  else if c = "not_in_relative_expanded" then !(decide (osJoin root name ∈ expandRel root st.rel))
+  else if c = "base_name_not_ignored" then !(decide (name ∈ cfg.ignoreFolders))
   else true
 
 /-- the filter of `folder_ios[:] = [...]` -/
